@@ -29,6 +29,7 @@ type Session struct {
 	Ad    Adapter
 
 	lastBackup *Obs
+	jobAdded   map[int]bool
 	bm         *server.BackupManager
 	bmWorldGen int
 	Variant    int // per-behaviour variant selector (flush thresholds etc.)
@@ -150,6 +151,11 @@ func (s *Session) diverge(kind string, q, exp, act any, note string) {
 
 // Run executes all steps, then checks the observation bundle.
 func (s *Session) Run(b *Behaviour) error {
+	if len(s.H.Jobs) > 0 {
+		if err := s.preassertIDs(); err != nil {
+			return err
+		}
+	}
 	for i := range b.Steps {
 		if err := s.Step(&b.Steps[i]); err != nil {
 			return fmt.Errorf("step %d (%s): %w", i, b.Steps[i].A, err)
@@ -157,6 +163,11 @@ func (s *Session) Run(b *Behaviour) error {
 	}
 	if err := s.CheckObs(&b.Obs); err != nil {
 		return err
+	}
+	if len(b.Jobs) > 0 {
+		if err := s.checkJobs(b.Jobs); err != nil {
+			return err
+		}
 	}
 	if s.lastBackup != nil {
 		return s.restoreAndCheck(s.lastBackup)
@@ -252,6 +263,8 @@ func (s *Session) Step(st *Step) error {
 		if err := s.foreignBackup(); err != nil {
 			return err
 		}
+	case "job":
+		return s.runJob(st)
 	case "read":
 		return s.readPage(st)
 	default:
